@@ -54,6 +54,15 @@ func checkC03(c *C03Case) *Violation {
 				fx[k] = x
 			}
 			worlds = append(worlds, &World{Seed: s*1000 + uint64(v&0xff), Fixed: fx})
+			if ctx := c.Meta["ctx"]; ctx == "10" || ctx == "11" || ctx == "12" {
+				// the other switch's var also takes its second interesting value (7: trailing body-less case, 90: default)
+				fy := map[string]int{}
+				for k, x := range fx {
+					fy[k] = x
+				}
+				fy["var:VAR_OUTER"] = 97 - fx["var:VAR_OUTER"]
+				worlds = append(worlds, &World{Seed: s*1000 + uint64(v&0xff), Fixed: fy})
+			}
 		}
 	}
 	differs := false
@@ -74,7 +83,7 @@ func checkC03(c *C03Case) *Violation {
 			for wi, w := range worlds {
 				want := ref.Run(name, w)
 				got := a.Run(name, w)
-				if wi%len(c.Seeds) == 0 { // same seed, different values
+				if wi%(len(worlds)/len(c.Values)) == 0 { // same seed, different values
 					seen[want.String()] = true
 				}
 				if want.String() != got.String() {
@@ -202,6 +211,28 @@ func wrapCtx(ctx int, sw *Stmt, pre, post, in1, in2 *Stmt) (*File, map[string]in
 		}}
 		fixed["var:VAR_OUTER"] = 7
 		body = []*Stmt{{K: "switch", Switch: outer}, post}
+	case 10: // a sibling switch with a default body and a trailing body-less case BEFORE the switch
+		sib := &Switch{Var: []string{"VAR_OUTER"}, Cases: []*Case{
+			{IsDefault: true, Body: &Block{Stmts: []*Stmt{pre}}},
+			{Val: []string{"7"}, Body: &Block{Stmts: []*Stmt{}}},
+		}}
+		fixed["var:VAR_OUTER"] = 7
+		body = []*Stmt{{K: "switch", Switch: sib}, in1, sw, post}
+	case 11: // the same sibling AFTER the switch
+		sib := &Switch{Var: []string{"VAR_OUTER"}, Cases: []*Case{
+			{IsDefault: true, Body: &Block{Stmts: []*Stmt{in2}}},
+			{Val: []string{"7"}, Body: &Block{Stmts: []*Stmt{}}},
+			{Val: []string{"8"}, Body: &Block{Stmts: []*Stmt{}}},
+		}}
+		fixed["var:VAR_OUTER"] = 7
+		body = []*Stmt{pre, sw, in1, {K: "switch", Switch: sib}, post}
+	case 12: // inside the default body of a switch that has a trailing body-less case
+		outer := &Switch{Var: []string{"VAR_OUTER"}, Cases: []*Case{
+			{IsDefault: true, Body: &Block{Stmts: []*Stmt{in1, sw, in2}}},
+			{Val: []string{"7"}, Body: &Block{Stmts: []*Stmt{}}},
+		}}
+		fixed["var:VAR_OUTER"] = 90
+		body = []*Stmt{pre, {K: "switch", Switch: outer}, post}
 	default: // inside an if arm, directly followed by end
 		cond := eLeaf(&Leaf{Kind: "flag", Operand: []string{"FLAG_ARM"}})
 		fixed["flag:FLAG_ARM"] = 1
@@ -210,7 +241,7 @@ func wrapCtx(ctx int, sw *Stmt, pre, post, in1, in2 *Stmt) (*File, map[string]in
 	return &File{Tops: []*Top{{K: "script", Script: &Script{Name: "S", Body: &Block{Stmts: body}}}}}, fixed
 }
 
-const c03Contexts = 10
+const c03Contexts = 13
 
 func c03Values(sw *Switch) []int {
 	var vals []int
@@ -302,7 +333,7 @@ func init() {
 	register("C03", "TestC03_Switch", checkC03, c03Src)
 }
 
-const c03Rule = "one switch of 1-6 cases (distinct decimal/hex/symbolic/multi-token values, in a quarter of the cases written through poryscript constants - the whole value or one token of it -, default absent or at any position, bodies: empty, commands, a lone break, break at the end / in the middle / inside a nested if / first, nested if, a do-while / while loop inside the body; continue at the end of the last case inside loops) in 10 contexts (only/first/last statement, followed by a bare return / end inside a nested block, inside while, do-while, condition-less while, another switch's body, an if arm); for EVERY case value and one value matching nothing a scripted world fixes the var and the assembly run must equal the reference run, optimize off and on; plus exhaustive enumeration of all case lists with <=3 entries (thorough 4, 5 with fewer body kinds). non-trivial = the list has an empty case or a default that is not last AND two values produced different outcomes; distinct by source text"
+const c03Rule = "one switch of 1-6 cases (distinct decimal/hex/symbolic/multi-token values, in a quarter of the cases written through poryscript constants - the whole value or one token of it -, default absent or at any position, bodies: empty, commands, a lone break, break at the end / in the middle / inside a nested if / first, nested if, a do-while / while loop inside the body; continue at the end of the last case inside loops) in 13 contexts (only/first/last statement, followed by a bare return / end inside a nested block, inside while, do-while, condition-less while, another switch's body, an if arm, after / before a sibling switch that has a default body and trailing body-less cases, inside the default body of such a switch - there the other switch's var takes both its values); for EVERY case value and one value matching nothing a scripted world fixes the var and the assembly run must equal the reference run, optimize off and on; plus exhaustive enumeration of all case lists with <=3 entries (thorough 4, 5 with fewer body kinds). non-trivial = the list has an empty case or a default that is not last AND two values produced different outcomes; distinct by source text"
 
 func TestC03_Regress(t *testing.T) { runRegress(t, "C03") }
 
@@ -324,7 +355,7 @@ func TestC03_Enum(t *testing.T) {
 		kinds []int
 		ctxs  []int
 	}
-	scopes := []scope{{1, []int{0, 1, 2, 3, 4, 5, 7}, []int{0, 1, 2, 3, 4, 5, 6, 7}}, {2, []int{0, 1, 2, 3, 4, 5, 7}, []int{0, 1, 2, 3, 4, 5, 6, 7}}, {3, []int{0, 1, 2, 5, 7}, []int{0, 1, 3, 5}}}
+	scopes := []scope{{1, []int{0, 1, 2, 3, 4, 5, 7}, []int{0, 1, 2, 3, 4, 5, 6, 7}}, {2, []int{0, 1, 2, 3, 4, 5, 7}, []int{0, 1, 2, 3, 4, 5, 6, 7, 10, 11, 12}}, {3, []int{0, 1, 2, 5, 7}, []int{0, 1, 3, 5, 10, 11}}}
 	if thorough() {
 		scopes = append(scopes, scope{3, []int{0, 1, 2, 3, 4, 5, 7}, []int{0, 1, 2, 3, 4, 5, 6, 7}}, scope{4, []int{0, 1, 2, 5, 7}, []int{0, 1, 3, 5}}, scope{5, []int{0, 1, 7}, []int{0, 1, 3}})
 	}
